@@ -73,6 +73,11 @@ def plan(tier, seed):
         for mo, d in env.TZ_DAYS:
             for hh in (0, 1, 2, 3, 23):
                 cases.append({"spec": SPEC, "devs": [["vol", "volume_descriptor", DT_FIELD, f"2021{mo:02d}{d:02d}{hh:02d}300512"]], "tz": rule, "label": f"creation=2021{mo:02d}{d:02d}{hh:02d}300512 under TZ={rule}"})
+    # volume directory files padded behind the text record (block-size padding), with 0..4 file pointers
+    for n_fp in (0, 1, 2, 3, 4, 7):
+        for pad in (1, 152, 359, 360, 361, 512, 720, 4096):
+            for byte in (0, 32):
+                cases.append({"spec": {**SPEC, "vol": {"n_fp": n_fp}, "pad_files": {"vol": [pad, byte]}}, "devs": [], "label": f"{n_fp} file pointers, {pad} bytes 0x{byte:02x} behind the text record"})
     # every (second, hundredth) pair of the creation time (two fields whose combination goes through one number)
     for ss in range(60):
         for cs in range(100) if tier == "thorough" or ss % 2 == 0 or ss in (1, 33, 59) else (0, 1, 37, 38, 50, 99):
@@ -155,7 +160,7 @@ def run(res, tier, seed):
         "every text field of volume descriptor + text record x {blank, 1 char, full width, inner spaces, right-justified, punctuation,"
         " quotes, mixed case, padded}; 6 all-fields-at-once products; creation timestamp over years{2014,2016,2049} x days"
         " {0101,0228,0229,0301,1231} x h{00,23} x m{00,59} x s{00,59} x cs{00,01,99} (quick: every 7th); 0..12 file pointers with"
-        " the last pointer rewritten; creation times at hours 0-3 and 23 of eight daylight-saving switch-over days under four local time zones; every (second, hundredth) pair of the creation time [quick: all hundredths for even seconds] through volume_directory.open_volume_directory; the volume directory replaced in place (modification time kept / new) between two opens. Root attributes must be exactly the documented set with the reference values."
+        " the last pointer rewritten; creation times at hours 0-3 and 23 of eight daylight-saving switch-over days under four local time zones; every (second, hundredth) pair of the creation time [quick: all hundredths for even seconds] through volume_directory.open_volume_directory; volume directory files padded behind the text record; the volume directory replaced in place (modification time kept / new) between two opens. Root attributes must be exactly the documented set with the reference values."
     )
     res.assumptions = ["printable ASCII contents only (the format's character class)"]
     core.run_cases(res, __name__, plan(tier, seed))
